@@ -330,6 +330,18 @@ def run_check(check, tier='quick', seed0=0, workers=None, runs=None, wall_cap=No
         # determinism: the first det_n seeds again in a fresh interpreter with another hash seed
         det_checked = 0
         seeds = [j[1] for j in jobs if j[0] == 'seed' and j[3]]
+        if det_n and hasattr(check, 'history_sensitive'):
+            # scenarios in which an object relies on something the library computes once per process (a class default): the
+            # workers have a history, the fresh interpreter has another one, so these are the seeds worth re-executing there
+            extra = []
+            for j in jobs:
+                if j[0] == 'seed' and not j[3] and len(extra) < 24:
+                    try:
+                        if check.history_sensitive(check.gen(j[1], tier)):
+                            extra.append(j[1])
+                    except Exception:       # noqa: BLE001
+                        pass
+            seeds = seeds + extra
         if det_n and seeds and not harness_errors and not timed_out:
             env = dict(os.environ)
             env['PYTHONHASHSEED'] = '4242'
